@@ -40,6 +40,11 @@ Theorem C07_auth_verify_iff : forall mac msg key,
   auth_verify mac msg key = Ok tt <-> mac = auth key msg.
 Proof. exact auth_verify_iff. Qed.
 
+(* crypto_auth as crypto_auth.rs builds it (two SHA-512 contexts keyed with the padded key, inner digest fed to the
+   outer one, truncation to 32 bytes) is HMAC-SHA-512-256 of RFC 2104 / RFC 4231, for every key and message *)
+Theorem C07_auth_is_hmac : forall key msg, auth key msg = Sha512Spec.hmac_sha512_256 key msg.
+Proof. exact auth_is_hmac. Qed.
+
 (* tables / constants regenerated from the sources on this run *)
 Theorem C07_gen_tables :
   Gen.Tables.blake2b_soft_SIGMA = map (map Z.of_nat) Blake2bImpl.SIGMA /\
